@@ -9,7 +9,7 @@ sys.path.insert(0, os.path.dirname(os.path.abspath(__file__)))
 import c02_helpers as H
 
 Unsupported = H.Unsupported
-PARAMS = {"key": "PKey", "value": "PValue", "default": "PDefault", "E": "PE", "F": "PF"}
+PARAMS = {"key": "PKey", "value": "PValue", "default": "PDefault", "E": "PE", "F": "PF", "other": "PE"}
 COUNTERS = {"hit_count": "CHit", "miss_count": "CMiss", "soft_miss_count": "CSoft"}
 METHODS = [("LRI", "__setitem__", "genm_setitem", ["self", "key", "value"], []),
            ("LRI", "__getitem__", "genm_getitem_lri", ["self", "key"], []),
@@ -20,7 +20,14 @@ METHODS = [("LRI", "__setitem__", "genm_setitem", ["self", "key", "value"], []),
            ("LRI", "popitem", "genm_popitem", ["self"], []),
            ("LRI", "clear", "genm_clear", ["self"], []),
            ("LRI", "setdefault", "genm_setdefault", ["self", "key", "default"], ["None"]),
-           ("LRI", "update", "genm_update", ["self", "E"], [])]
+           ("LRI", "update", "genm_update", ["self", "E"], []),
+           ("LRI", "__contains__", "genm_contains", ["self", "key"], []),
+           ("LRI", "__len__", "genm_len", ["self"], []),
+           ("LRI", "__ior__", "genm_ior", ["self", "other"], []),
+           ("LRI", "__eq__", "genm_eq", ["self", "other"], []),
+           ("LRI", "__ne__", "genm_ne", ["self", "other"], []),
+           ("LRI", "copy", "genm_copy", ["self"], []),
+           ("LRI", "__copy__", "genm_copy_module", ["self"], [])]
 
 
 def _self_attr(node, name=None):
@@ -71,6 +78,11 @@ class _Method:
                 return "XSelf"
             return "(XVar %d)" % self.var(e.id)
         if isinstance(e, ast.Subscript):
+            # self._get_flattened_ll()[1:]
+            if (isinstance(e.slice, ast.Slice) and isinstance(e.slice.lower, ast.Constant) and e.slice.lower.value == 1
+                    and e.slice.upper is None and e.slice.step is None and isinstance(e.value, ast.Call)
+                    and _self_attr(e.value.func, "_get_flattened_ll") and not e.value.args and not e.value.keywords):
+                return "XFlattenTail"
             if isinstance(e.value, ast.Name) and e.value.id == "self":
                 return "(XSelfGet %s)" % self.expr(e.slice)
             if _self_attr(e.value, "_link_lookup"):
@@ -84,6 +96,10 @@ class _Method:
             self.bad("subscript", e)
         if isinstance(e, ast.UnaryOp) and isinstance(e.op, ast.Not) and _self_attr(e.operand, "on_miss"):
             return "XNoOnMiss"
+        if isinstance(e, ast.UnaryOp) and isinstance(e.op, ast.Not):
+            return "(XNot %s)" % self.expr(e.operand)
+        if isinstance(e, ast.Constant) and e.value is True:
+            return "XTrue"
         if _self_attr(e, "max_size"):
             return "XMaxSize"
         if isinstance(e, ast.Compare) and len(e.ops) == 1 and len(e.comparators) == 1:
@@ -92,6 +108,8 @@ class _Method:
                 return "(XLt %s %s)" % (a, b)
             if isinstance(e.ops[0], ast.Is):
                 return "(XIs %s %s)" % (a, b)
+            if isinstance(e.ops[0], ast.Eq) and a == "XSelf":
+                return "(XSelfEq %s)" % b
             self.bad("comparison", e)
         if isinstance(e, ast.Call):
             if (isinstance(e.func, ast.Name) and e.func.id == "len" and len(e.args) == 1 and not e.keywords
@@ -103,6 +121,19 @@ class _Method:
                 return "(XSuperPop %s)" % self.expr(e.args[0])
             if _super_call(e, "popitem", 0):
                 return "XSuperPopitem"
+            if _self_attr(e.func, "copy") and not e.args and not e.keywords:
+                return "XSelfCopy"
+            # self.__class__(max_size=self.max_size, on_miss=self.on_miss)
+            if (_self_attr(e.func, "__class__") and not e.args and len(e.keywords) == 2
+                    and sorted((k.arg, ast.unparse(k.value)) for k in e.keywords)
+                    == [("max_size", "self.max_size"), ("on_miss", "self.on_miss")]):
+                return "XNewLike"
+            if _super_call(e, "__contains__", 1):
+                return "(XSuperContains %s)" % self.expr(e.args[0])
+            if _super_call(e, "__len__", 0):
+                return "XSuperLen"
+            if _super_call(e, "__eq__", 1):
+                return "(XSuperEq %s)" % self.expr(e.args[0])
             h = self.helper(e)
             if h and h[0] == "gen_move_to_front" and len(h[1]) == 1:
                 return "(XHelperMove %s)" % self.expr(h[1][0])
@@ -128,6 +159,8 @@ class _Method:
                 return "TSelfItem %s" % self.expr(t.slice)
             if isinstance(t.slice, ast.Name) and t.slice.id == "VALUE":
                 return "TLinkVal %s" % self.expr(t.value)
+            if isinstance(t.value, ast.Name) and t.value.id in self.vars:
+                return "TObjItem %d %s" % (self.var(t.value.id), self.expr(t.slice))
         self.bad("assignment target", t)
 
     def block(self, stmts):
@@ -179,6 +212,8 @@ class _Method:
                 return "MHelperRemove %s" % self.expr(h[1][0])
             if h and h[0] == "gen_init_ll" and len(h[1]) == 0:
                 return "MHelperInit"
+            if _self_attr(c.func, "update") and len(c.args) == 1 and not c.keywords:
+                return "MCallUpdate %s" % self.expr(c.args[0])
             if (isinstance(c.func, ast.Name) and c.func.id == self.alias_setitem and len(c.args) == 2
                     and not c.keywords):
                 return "MCallSetitem %s %s" % (self.expr(c.args[0]), self.expr(c.args[1]))
@@ -194,11 +229,16 @@ class _Method:
                 if isinstance(it, ast.Name) and it.id == "F" and "F" in self.params:
                     return "MForKeys %d (XParam PF) %s" % (x, self.block(s.body))
             if (isinstance(s.target, ast.Tuple) and len(s.target.elts) == 2
-                    and all(isinstance(e, ast.Name) for e in s.target.elts)
-                    and isinstance(it, ast.Name) and it.id == "E" and "E" in self.params):
+                    and all(isinstance(e, ast.Name) for e in s.target.elts)):
+                if isinstance(it, ast.Name) and it.id == "E" and "E" in self.params:
+                    src = "(XParam PE)"
+                else:
+                    src = self.expr(it)
+                    if src != "XFlattenTail":
+                        self.bad("for", s)
                 x = self.var(s.target.elts[0].id, define=True)
                 y = self.var(s.target.elts[1].id, define=True)
-                return "MForPairs %d %d (XParam PE) %s" % (x, y, self.block(s.body))
+                return "MForPairs %d %d %s %s" % (x, y, src, self.block(s.body))
             self.bad("for", s)
         if isinstance(s, ast.Return):
             return "MReturnNone" if s.value is None else "MReturn %s" % self.expr(s.value)
